@@ -87,6 +87,10 @@ type Node struct {
 	// its own (a source with the task's first input, one process) with Nest slots
 	// before it writes its outputs - a second Workflow object alive in the program
 	Nest    int
+	// Stage 1: the node belongs to a SECOND workflow of the same program, which is
+	// built up front together with the first and run after the first has returned
+	// (its sources may list files the first workflow produces)
+	Stage int
 	// HiddenParams (Go-function task): the parameter ports are not mentioned in
 	// the command pattern or the output paths (created with InParam only); the
 	// function reads the values with task.Param - an empty string is then a value
@@ -233,6 +237,9 @@ func (w *WF) Describe() string {
 		}
 		if n.Nest > 0 {
 			fmt.Fprintf(&b, " runs-a-nested-workflow(slots=%d)", n.Nest)
+		}
+		if n.Stage > 0 {
+			b.WriteString(" [second workflow, built up front, run afterwards]")
 		}
 		if n.Prepend != "" {
 			fmt.Fprintf(&b, " prepend=%q", n.Prepend)
